@@ -17,6 +17,7 @@ The tree uses the vocabulary of the implementation's public ReprWalker view
 (DESIGN appendix A) so that a difference always means a different derivation.
 """
 
+import re
 import unicodedata
 
 LT_CHARS = '\n\r\u2028\u2029'
@@ -536,6 +537,12 @@ class Parser(object):
             out.append(self.parse_statement())
         return out
 
+    def note_escaped(self, t):
+        # an escape sequence is an ordinary spelling of its character (7.6); only a name that *decodes* to a
+        # reserved word can be read either way in ES5.1 and is left to no verdict
+        decoded = re.sub(r'\\u([0-9a-fA-F]{4})', lambda m: chr(int(m.group(1), 16)), t.value)
+        self.res.flags.add('escaped_identifier' if decoded in RESERVED else 'escaped_name')
+
     def ident(self):
         t = self.tok
         if t.kind != 'name':
@@ -543,7 +550,7 @@ class Parser(object):
         if t.value in RESERVED:
             self.error('reserved_word_as_identifier')
         if 'escaped' in t.flags:
-            self.res.flags.add('escaped_identifier')
+            self.note_escaped(t)
         self.advance()
         i = self.last_index()
         return R('Identifier', i, i, value=t.value)
@@ -1017,7 +1024,7 @@ class Parser(object):
                 if nt.kind != 'name':
                     self.error('expected_property_name')
                 if 'escaped' in nt.flags:
-                    self.res.flags.add('escaped_identifier')
+                    self.note_escaped(nt)
                 self.advance()
                 i = self.last_index()
                 e = R('DotAccessor', first, i, optok=op, node=e,
@@ -1070,7 +1077,7 @@ class Parser(object):
             v = t.value
             esc = 'escaped' in t.flags
             if esc:
-                self.res.flags.add('escaped_identifier')
+                self.note_escaped(t)
             if v == 'this' and not esc:
                 self.advance()
                 return R('This', first, first)
@@ -1141,7 +1148,7 @@ class Parser(object):
         i = self.next_index()
         if t.kind == 'name':
             if 'escaped' in t.flags:
-                self.res.flags.add('escaped_identifier')
+                self.note_escaped(t)
             self.advance()
             return R('PropIdentifier', i, i, value=t.value)
         if t.kind == 'str':
